@@ -2,7 +2,6 @@ package vrt
 
 import (
 	"fmt"
-	"runtime"
 	"sort"
 	"sync"
 )
@@ -33,7 +32,8 @@ func (m *Mutex) Lock() {
 		return
 	}
 	if t.killed {
-		runtime.Goexit()
+		t.die()
+		return
 	}
 	m.sync()
 	if t.quiet > 0 && !m.held {
@@ -109,16 +109,19 @@ func (m *RWMutex) Lock() {
 		return
 	}
 	if t.killed {
-		runtime.Goexit()
+		t.die()
+		return
 	}
 	m.sync()
 	if t.quiet > 0 && !m.wheld && m.readers == 0 {
 		m.wheld = true
+		s.vcAcquire(t, addr(m)+1)
 		s.acc(t, addr(m), true)
 		return
 	}
 	s.point(t, &pend{kind: opRLock, rw: m, what: "wlock"})
 	m.wheld = true
+	s.vcAcquire(t, addr(m)+1)
 	s.acc(t, addr(m), true)
 }
 
@@ -148,17 +151,21 @@ func (m *RWMutex) RLock() {
 		return
 	}
 	if t.killed {
-		runtime.Goexit()
+		t.die()
+		return
 	}
 	m.sync()
 	if t.quiet > 0 && !m.wheld {
 		m.readers++
-		s.acc(t, addr(m), true)
+		s.accHash(t, addr(m), true)
+		s.vcAcquire(t, addr(m))
 		return
 	}
 	s.point(t, &pend{kind: opRLock, rw: m, what: "rlock"})
 	m.readers++
-	s.acc(t, addr(m), true)
+	// a reader is ordered after the last writer only, never after other readers
+	s.accHash(t, addr(m), true)
+	s.vcAcquire(t, addr(m))
 }
 
 func (m *RWMutex) RUnlock() {
@@ -178,7 +185,8 @@ func (m *RWMutex) RUnlock() {
 		panic(fatalError("sync: RUnlock of unlocked RWMutex"))
 	}
 	m.readers--
-	s.acc(t, addr(m), true)
+	s.accHash(t, addr(m), true)
+	s.vcReleaseJoin(t, addr(m)+1)
 	pt(t, "runlock")
 }
 
@@ -189,6 +197,7 @@ func (m *RWMutex) TryLock() bool {
 	}
 	m.sync()
 	pt(t, "trylock")
+	s.vcAcquire(t, addr(m)+1)
 	s.acc(t, addr(m), true)
 	if m.wheld || m.readers > 0 {
 		return false
@@ -204,7 +213,8 @@ func (m *RWMutex) TryRLock() bool {
 	}
 	m.sync()
 	pt(t, "tryrlock")
-	s.acc(t, addr(m), true)
+	s.accHash(t, addr(m), true)
+	s.vcAcquire(t, addr(m))
 	if m.wheld {
 		return false
 	}
@@ -261,7 +271,8 @@ func (w *WaitGroup) Wait() {
 		return
 	}
 	if t.killed {
-		runtime.Goexit()
+		t.die()
+		return
 	}
 	w.sync()
 	s.point(t, &pend{kind: opWGWait, wg: w})
@@ -286,7 +297,12 @@ func (o *Once) Do(f func()) {
 		return
 	}
 	if t.killed {
-		runtime.Goexit()
+		t.die()
+		if !o.done {
+			o.done = true
+			f()
+		}
+		return
 	}
 	if o.runEpoch != s.epoch {
 		o.runEpoch = s.epoch
@@ -298,6 +314,9 @@ func (o *Once) Do(f func()) {
 		return
 	}
 	s.point(t, &pend{kind: opOnce, once: o})
+	if t.killed {
+		return
+	}
 	if o.done {
 		s.acc(t, addr(o), false)
 		return
@@ -349,7 +368,8 @@ func (c *Cond) Wait() {
 		return
 	}
 	if t.killed {
-		runtime.Goexit()
+		t.die()
+		return
 	}
 	c.sync()
 	w := &condWaiter{t: t}
